@@ -337,6 +337,7 @@ class Lower:
                     return self.stubs[key]
                 raise Abort('reference to unknown variable %s in %s' % (nm, self.cur_fn))
             nm = self.rename.get(nm, nm)
+            nm = getattr(self, 'rename_id', {}).get(r.get('id'), nm)     # hoisted local renamed apart from a same-named sibling of another type
             if re.search(r'\(&&?\)\[\d*\]$', qt.strip()):
                 return nm                      # reference to array, lowered as pointer to the first element
             return '(*%s)' % nm if self.is_ref(qt) else nm
@@ -1213,10 +1214,11 @@ class Lower:
                 self.scopes.append([])
                 pre = self.flush_pre(ind + 1)
                 b = self.blk(ins[1], ind + 1)
+                lh = self.loop_head()
                 self.scopes.pop()
                 self.loop_depth.pop()
                 self.loop_id_stack.pop()
-                return ln + pad + 'while (1)\n' + lc + pad + '{\n' + pad + '    ' + self.loop_head() + pre + \
+                return ln + pad + 'while (1)\n' + lc + pad + '{\n' + pad + '    ' + lh + pre + \
                     pad + '    if (!(%s)) break;\n' % c + b + pad + '}\n'
             self.loop_depth.append(len(self.scopes))
             b = self.blk(ins[1], ind, reach=True)
@@ -1281,13 +1283,14 @@ class Lower:
                 self.hoisted_names.append((iv, tuple(self.loop_id_stack[:-1])))
             bs = self.S(body, ind + 2)
             dt = self.dtors(ind + 2, 1)
+            lh = self.loop_head()
             self.scopes.pop()
             self.loop_depth.pop()
             self.loop_id_stack.pop()
             self.scopes.pop()
             s = ln + pad + '{\n' + pad + '    %s%s = 0;\n' % ('' if hoist else 'size_t ', iv)
             s += pad + '    for (; %s < %s; ++%s)\n' % (iv, count, iv) + lc
-            s += pad + '    {\n' + pad + '        ' + self.loop_head()
+            s += pad + '    {\n' + pad + '        ' + lh
             s += pad + '        %s%s = &(%s)[%s];\n' % ('' if hoist else lct + ' ', lvd['name'], arr, iv) + bs + dt + pad + '    }\n' + pad + '}\n'
             return s
         if k == 'CXXForRangeStmt':
@@ -1303,11 +1306,12 @@ class Lower:
             lvs = self.S(lv, ind + 2)
             bs = self.S(body, ind + 2)
             dt = self.dtors(ind + 2, 1)
+            lh = self.loop_head()
             self.scopes.pop()
             self.loop_depth.pop()
             self.loop_id_stack.pop()
             s += pad + '    for (; %s; %s)\n' % (c, i) + lc
-            s += pad + '    {\n' + pad + '        ' + self.loop_head() + lvs + bs + dt + pad + '    }\n' + pad + '}\n'
+            s += pad + '    {\n' + pad + '        ' + lh + lvs + bs + dt + pad + '    }\n' + pad + '}\n'
             self.scopes.pop()
             return s
         if k == 'BreakStmt':
@@ -1507,7 +1511,14 @@ class Lower:
             hd = '%s %s;' % (ct, nm)
             if hd not in self.hoisted:
                 if any(h.split()[-1] == nm + ';' for h in self.hoisted):
-                    raise Abort('hoisting: two locals named %s with different types in %s' % (nm, self.cur_fn))
+                    # same name, other type, sibling scope: the hoisted variable of this declaration gets a name of its own
+                    self.rename_id = getattr(self, 'rename_id', {})
+                    k2 = 2
+                    while any(h.split()[-1] == '%s__%d;' % (nm, k2) for h in self.hoisted):
+                        k2 += 1
+                    self.rename_id[v['id']] = '%s__%d' % (nm, k2)
+                    nm = '%s__%d' % (nm, k2)
+                    hd = '%s %s;' % (ct, nm)
                 self.hoisted.append(hd)       # locals of sibling scopes with the same name and type share the hoisted variable
             self.hoisted_names.append((nm, tuple(self.loop_id_stack)))
         if core is not None and core.get('kind') in ('CXXConstructExpr', 'CXXTemporaryObjectExpr'):
